@@ -23,6 +23,9 @@ TOPOLOGIES = {
     # t1 + a ball save (unlimited saves, 2 s eject delay): drains are answered by new balls
     "t5": {"machine": "balls_t5", "trough": "bd_trough", "trough_switches": ["s_trough1", "s_trough2", "s_trough3", "s_trough4"],
            "pf_switches": ["s_pf1", "s_pf2"], "locks": [], "manual": []},
+    # three-stage chain: trough -> launcher -> one-ball staging device -> playfield
+    "t7": {"machine": "balls_t7", "trough": "bd_trough", "trough_switches": ["s_trough1", "s_trough2", "s_trough3", "s_trough4"],
+           "pf_switches": ["s_pf1", "s_pf2"], "locks": [], "manual": []},
     # two independent feeds (trough+plunger each) into one playfield
     "t6": {"machine": "balls_t6", "trough": "bd_trough", "trough_b": "bd_trough_b", "plunger_b": "bd_plunger_b",
            "trough_switches": ["s_trough1", "s_trough2", "s_troughb1", "s_troughb2"],
@@ -31,7 +34,7 @@ TOPOLOGIES = {
 
 PROBES = ["game_started", "drain", "drain_during_eject", "multiball_add", "eject_failed_physically", "eject_retry_seen",
           "two_balls_loose", "lock_shot", "lock_release", "manual_plunge", "late_arrival", "fallback", "stuck",
-          "rest_reached", "bounce_off_full", "request_while_busy", "game_ended", "second_game", "ambiguous_reentry", "entrance_reentry_at_eject_timeout", "second_feed_request", "ball_saved", "double_drain"]
+          "rest_reached", "bounce_off_full", "request_while_busy", "game_ended", "second_game", "ambiguous_reentry", "entrance_reentry_at_eject_timeout", "second_feed_request", "ball_saved", "double_drain", "late_arrival_at_missing_deadline", "add_ball_while_first_in_transit"]
 
 
 def warm():
@@ -92,6 +95,9 @@ def execute(ctx, plan, prop):
 
     def viol(rule, sig, msg):
         if rule in rules:
+            if prop == "C05" and world.exact_late_arrivals and rule in ("device_not_idle", "request_not_served", "never_rests"):
+                # own class: a late ball was counted in its target in the very instant the source gave it up for lost
+                sig = "arrival_at_ball_missing_deadline"
             ctx.violation(rule, sig, msg)
 
     neg_seen = [0]
@@ -201,8 +207,11 @@ def execute(ctx, plan, prop):
         elif k == "pf_hit":
             world.loose_ball_hits(topo["pf_switches"][op["pick"] % len(topo["pf_switches"])])
         elif k == "add_ball":
-            if m.game is not None and len(world.loose()) >= 1:
+            # mostly a multiball add while a ball is in play; sometimes while the first ball is still on its way
+            if m.game is not None and (len(world.loose()) >= 1 or op["pick"] == 0):
                 ctx.probe("multiball_add")
+                if not world.loose():
+                    ctx.probe("add_ball_while_first_in_transit")
                 if any(d.state != "idle" for d in devices):
                     ctx.probe("request_while_busy")
                 pf.add_ball()
